@@ -49,8 +49,23 @@ def pick_flags():
     return f
 
 
-def gen_action(owner, nh, maxslot, style):
+PEN_CODES = ["b0", "b1", "c2", "c3", "k00", "k01", "k10", "k11", "k20", "k21", "k30", "k31", "k41", "a2", "a4", "a3", "d3", "d5", "D3", "D5"]
+
+
+def pen_code():
+    """An operation on the owner pen that may emit ON_CHANGE: plain setters, and freeze..thaw regions (copy from a template
+    with/without overwrite, copy_attr of a colour with/without RGB8, a colour description with/without #rgb); biased to
+    operations that, repeated, change nothing."""
+    c = rng.choice(PEN_CODES) if rng.random() < 0.6 else rng.choice(["k01", "k31", "k21", "a2", "D3", "b1"])
+    stats["pen_" + c[0]] += 1
+    return c
+
+
+def gen_action(owner, nh, maxslot, style, penops=False):
     r = rng.random()
+    if penops and r < 0.3:
+        stats["act_p"] += 1
+        return "p:" + pen_code()
     if style == "bindy":
         w = [0.45, 0.15, 0.1, 0.3]
     elif style == "unbindy":
@@ -58,7 +73,7 @@ def gen_action(owner, nh, maxslot, style):
     else:
         w = [0.25, 0.25, 0.15, 0.35]
     k = rng.choices(["b", "u", "us", "e"], w)[0]
-    if rng.random() < 0.02:
+    if rng.random() < 0.02 and not penops:
         k = "d"                      # drop the handlers' reference to the owner (the interpreter does it once)
     stats["act_" + k] += 1
     if k == "d":
@@ -80,6 +95,9 @@ def history(kind):
     nh = rng.randint(1, 4)
     nops = rng.randint(3, 22)
     style = rng.choice(["bindy", "unbindy", "mixed"])
+    penops = owner == "pen" and rng.random() < 0.6     # the pen is also changed through freeze..thaw regions
+    if penops:
+        stats["kind_penops"] += 1
     behs = []
     if kind != "linear":
         for h in range(nh):
@@ -89,7 +107,7 @@ def history(kind):
                     continue              # this invocation does nothing
                 nact = rng.choice([0, 1, 1, 1, 2, 2, 3])
                 ret = 1 if (owner == "term" and rng.random() < 0.2) else 0
-                acts = [gen_action(owner, nh, 6, style) for _ in range(nact)]
+                acts = [gen_action(owner, nh, 6, style, penops) for _ in range(nact)]
                 behs.append("beh %d %d %d %s" % (h, n, ret, " ".join(acts)))
                 stats["beh_lines"] += 1
                 stats["beh_actions_%d" % nact] += 1
@@ -105,7 +123,10 @@ def history(kind):
             out.append("bind %d %d %d" % (pick_event(owner, True), pick_flags(), rng.randrange(nh)))
             nb += 1; stats["op_bind"] += 1
         elif r < 0.72:
-            out.append("emit %d" % pick_event(owner, False)); stats["op_emit"] += 1
+            if penops and rng.random() < 0.6:
+                out.append("pen " + pen_code()); stats["op_pen"] += 1
+            else:
+                out.append("emit %d" % pick_event(owner, False)); stats["op_emit"] += 1
         elif r < 0.93:
             # mostly existing slots (slots created inside handlers are beyond nb: allow a margin)
             out.append("unbind %d" % rng.randrange(0, nb + 3)); stats["op_unbind"] += 1
@@ -124,8 +145,19 @@ def scenario():
     """Hand-shaped families around the interleavings the property text names, with random fill."""
     owner = rng.choice(["pen", "term"])
     ev = rng.choice(EVENTS[owner])
-    fam = rng.randrange(8)
+    fam = rng.randrange(10)
     stats["scenario_%d" % fam] += 1
+    if fam >= 8:      # a change handler re-applies a template (or changes something) from inside a batched occurrence
+        o = ["new pen"]
+        inner = rng.choice(["k01", "k01", "k31", "k21", "a2", "D3", "b1", "k11", "c2"])
+        outer = rng.choice(["k01", "k31", "k21", "a2", "D3", "k30", "d3"])
+        o += ["beh 0 0 0 p:%s" % inner, "beh %d %d 0 p:%s" % (rng.randrange(2), rng.randrange(1, 3), rng.choice(["k01", "k11", "D5", "b0"])),
+              "bind 1 %d 0" % rng.choice([0, 2, 4]), "bind 1 %d 1" % rng.choice([0, 2, 8]),
+              "pen " + rng.choice(["k01", "b1", "k31"]), "pen " + outer, "pen " + outer, "emit 1"]
+        if rng.random() < 0.8:
+            o.append("destroy")
+        stats["owner_pen"] += 1
+        return o
     stats["owner_" + owner] += 1
     o = ["new " + owner]
     f = lambda: rng.choice([0, 2, 4, 6])
